@@ -235,7 +235,8 @@ def parse_structs(rel, src):
         owner = encl[-1] if encl else ""
         d = dict(file=rel, line=lineno(src, m.start()), struct=name, owner=owner, bases=bases,
                  fields=[], imports=[], exports=[], adhoc_in=[], adhoc_out=[], checked=[], checked_opt=[],
-                 has_ctor=False, has_get=False, has_check=False, base_ctor=[], base_get=[], typedefs={}, shadowed=[])
+                 has_ctor=False, has_get=False, has_check=False, base_ctor=[], base_get=[], typedefs={}, shadowed=[],
+                 has_default_ctor=False, default_inits=[])
         for mem in members(body):
             if mem[0] == "stmt":
                 t = " ".join(mem[1].split())
@@ -244,6 +245,8 @@ def parse_structs(rel, src):
                 t = re.sub(r"^(public|private|protected)\s*:\s*", "", t)
                 if re.match(r"(using|friend|static|template|enum|struct|class)\b", t): continue
                 if "(" in drop_angles(t): continue          # member function declaration
+                inclass_init = "=" in drop_angles(t) or bool(re.search(r"\w\s*\{[^}]*\}\s*$", t))
+                t = re.sub(r"\s*=.*$", "", t)
                 decls = split_top(t)
                 fm = re.match(r"(.*?)([\*&\s]*)(\w+)\s*(\[[^\]]*\])?$", decls[0].strip())
                 if not fm: continue
@@ -257,13 +260,23 @@ def parse_structs(rel, src):
                     ty = (base_ty + " " + ptr).strip() + arr
                     ty_res = d["typedefs"].get(base_ty, base_ty)
                     child, nonscalar, cls = classify_type(ty + " " + ty_res)
-                    d["fields"].append(dict(name=fname, type=ty, kind="child" if child else "value",
+                    d["fields"].append(dict(name=fname, type=ty, kind="child" if child else "value", inclass_init=inclass_init,
                                             scalar=not nonscalar, cls=cls, line=d["line"] + body.count("\n", 0, mem[2])))
             elif mem[0] == "fn":
                 head, fb = mem[1], mem[2]
                 hflat = " ".join(head.split())
                 cm = re.match(r"(?:explicit\s+)?%s\s*\(\s*%s(\w*)\s*\)\s*(?::(.*))?$" % (re.escape(name), PTREE), hflat, flags=re.S)
                 gm = re.match(r"void\s+get\s*\(\s*boost::property_tree::ptree\s*&\s*(\w*)\s*,", hflat)
+                dm = None
+                if not cm:
+                    dm = re.match(r"(?:explicit\s+)?%s\s*\(([^()]*)\)\s*(?::(.*))?$" % re.escape(name), hflat, flags=re.S)
+                    # a default constructor: no parameters, or every parameter has a default argument
+                    if dm and not all("=" in a for a in split_top(dm.group(1)) if a.strip()): dm = None
+                if dm:
+                    d["has_default_ctor"] = True
+                    for part in split_top(dm.group(2) or ""):
+                        im = re.match(r"\s*(\w+)\s*[\(\{]", part)
+                        if im: d["default_inits"].append(im.group(1))
                 if cm:
                     d["has_ctor"] = True
                     p = cm.group(1) or "__unnamed__"; init = cm.group(2) or ""
@@ -464,6 +477,15 @@ def parse(repo):
             for b in s["base_ids"]: out += chain(byid[b], depth + 1)
         return out + ([s["checked"] + s["checked_opt"]] if s["has_check"] else [])
     for s in structs:
+        # scalar value members (and raw pointers) that the default constructor does not initialise: the
+        # "default" used by AMGCL_PARAMS_IMPORT_VALUE (params().name) is then an indeterminate value
+        s["uninit"] = []
+        if s["has_ctor"]:
+            for f in s["fields"]:
+                builtin = f["cls"] in ("int", "real", "bool", "enum") or (f["cls"] == "nonscalar" and "*" in f["type"])
+                if f["kind"] == "value" and builtin and not f["inclass_init"] and f["name"] not in s["default_inits"]:
+                    s["uninit"].append(f["name"])
+    for s in structs:
         s["check_chain"] = chain(s)
         s["eff_imports"] = eff(s, "imports", "base_ctor")
         s["eff_exports"] = eff(s, "exports", "base_get")
@@ -573,6 +595,7 @@ def emit_coq(data, exceptions, known, repo_label="<repo>"):
         L.append("  sd_checked := %s;" % clist(s["checked"] + s["checked_opt"]))
         L.append("  sd_check_chain := %s;" % clist(s["check_chain"], clist))
         L.append("  sd_shadowed := %s;" % clist(s["shadowed"]))
+        L.append("  sd_uninit := %s;" % clist(s["uninit"]))
         L.append("  sd_derived_names := %s;" % clist(s["derived_names"]))
         L.append("  sd_has_ctor := %s; sd_has_get := %s; sd_has_check := %s |}." % tuple(
             "true" if s[x] else "false" for x in ("has_ctor", "has_get", "has_check")))
